@@ -113,6 +113,18 @@ class C02(Check):
                 vals.add(rng.getrandbits(bits))
             for v in sorted(vals):
                 add(T, [str(v)], "int-" + T)
+        # the sub-fields of the transaction extra are consensus-encoded values too (their grammar is C16's subject; here only
+        # serialise-then-parse at the length boundaries of every variant)
+        KB, KI = "58" + "66" * 31, "01" + "00" * 31
+        for n in (0, 1, 2, 32, 126, 127, 128, 129, 254, 255):
+            cs.append(Case("subfield_rt nonce %s" % (G.hexb(rng, n) if n else "-"), "subfield"))
+            cs.append(Case("subfield_rt mg %s" % (G.hexb(rng, n) if n else "-"), "subfield"))
+            cs.append(Case("subfield_rt pad %d" % n, "subfield"))
+        for d in (0, 1, 127, 128, 16383, 16384, 2 ** 32, 2 ** 63, 2 ** 64 - 1):
+            cs.append(Case("subfield_rt mm %d %s" % (d, G.key(rng)), "subfield"))
+        for n in (0, 1, 2, 3, 127, 128, 129):
+            cs.append(Case(("subfield_rt add %d %s" % (n, " ".join([KB, KI][i % 2] for i in range(n)))).strip(), "subfield"))
+        cs.append(Case("subfield_rt pk " + KB, "subfield"))
         seen, out = set(), []
         for c in cs:
             if c.line not in seen:
@@ -139,6 +151,10 @@ class C02(Check):
             return "serialise/parse of a well-formed value did not return: " + impl[:80]
         hx = "" if w[1] == "-" else w[1]
         n = len(hx) // 2
+        if case.line.startswith("subfield_rt "):
+            if int(w[2]) != n or w[3] != "1" or int(w[4]) != n or w[5] != "1":
+                return "sub-field: parse(serialise(x)) != x or consumed %s of %d bytes (%s)" % (w[4] if len(w) > 4 else "?", n, impl[:80])
+            return None
         if int(w[2]) != n:
             return "encoder reported %s bytes but wrote %d" % (w[2], n)
         if w[3] != "1" or int(w[4]) != n:
